@@ -356,6 +356,39 @@ func c02(c *Ctx) {
 			}
 		}
 	}
+
+	c.R.Rule("R2.9", "the server-side-apply field manager of composed resources is distinct per XR name and GroupKind", 2,
+		"two XRs that share a field manager look like one applier to the API server: the second one's apply silently replaces the first one's controller reference instead of being rejected for adding a second controller")
+	if fo := c.fn(pkgComposite, "ComposedFieldOwnerName"); fo != nil && len(fo.Params) == 1 {
+		var writes []ssa.CallInstruction
+		for _, x := range cfgx.Calls(fo, nil) {
+			if n := cfgx.CalleeName(x); strings.HasSuffix(n, ".Write") || strings.HasSuffix(n, ".Sum256") || strings.HasSuffix(n, ".Sum") && len(cfgx.CallArgs(x)) > 0 && !cfgx.IsNilConst(cfgx.CallArgs(x)[len(cfgx.CallArgs(x))-1]) {
+				writes = append(writes, x)
+			}
+		}
+		hasName, hasGroup := false, false
+		for _, w := range writes {
+			for _, a := range cfgx.CallArgs(w) {
+				flow.Default.Any(a, func(v ssa.Value) bool {
+					if hasSuffixCall(v, ".GetName") {
+						hasName = true
+					}
+					if hasSuffixCall(v, "schema.GroupVersionKind).GroupKind") || hasSuffixCall(v, "schema.GroupKind).String") || hasSuffixCall(v, "schema.GroupVersionKind).String") || hasSuffixCall(v, ".GetAPIVersion") {
+						hasGroup = true
+					}
+					if f, ok := v.(*ssa.Field); ok && strings.HasSuffix(f.X.Type().String(), "schema.GroupVersionKind") && f.Field == 0 {
+						hasGroup = true
+					}
+					if f, ok := v.(*ssa.FieldAddr); ok && strings.Contains(f.X.Type().String(), "schema.GroupVersionKind") && f.Field == 0 {
+						hasGroup = true
+					}
+					return false
+				})
+			}
+		}
+		c.R.Check(len(writes) > 0 && hasName, load.FuncName(fo)+": hashes the XR name", c.pos(fo.Pos()), "the XR's name is part of the hashed identity", "the XR's name is not part of the field manager's hashed identity")
+		c.R.Check(len(writes) > 0 && hasGroup, load.FuncName(fo)+": hashes the API group", c.pos(fo.Pos()), "the XR's API group (GroupKind) is part of the hashed identity", "the XR's API group is not part of the field manager's hashed identity: XRs of the same name and kind from different groups share one field manager")
+	}
 }
 
 func sameAccess(a, b ssa.Value) bool {
